@@ -56,7 +56,7 @@ impl Property for C14 {
         }
     }
     fn rule(&self) -> &'static str {
-        "each case: a generated valid instance with 1-7 constraints spread over the active and removed lists (metadata, threshold-valued constraints) and a history of up to 8 (quick) / 24 (thorough) operations drawn from relax(id, reason, parameters) / restore(id) with ids from the active list, the removed list and unknown ids, interleaved with evaluate at one fixed in-bound state. After every operation the instance is compared with an executable two-map model: same (id, function, equality, metadata) collection, each id in exactly one list, reason/parameters recorded, failing operations leave the instance equal; across the history the per-constraint values and `feasible` are constant and `feasible_relaxed` equals the conjunction over the model's active set. Non-trivial = history with >= 2 successful moves; distinct = fingerprint of (instance, history)."
+        "each case: a generated valid instance with 1-7 constraints spread over the active and removed lists (metadata, threshold-valued constraints; half of them with one-hot / SOS1 constraint hints naming active constraints) and a history of up to 8 (quick) / 24 (thorough) operations drawn from relax(id, reason, parameters) / restore(id) with ids from the active list, the removed list and unknown ids, interleaved with evaluate at one fixed in-bound state. After every operation the instance is compared with an executable two-map model: same (id, function, equality, metadata) collection, each id in exactly one list, reason/parameters recorded, failing operations leave the instance equal; across the history the per-constraint values and `feasible` are constant and `feasible_relaxed` equals the conjunction over the model's active set. Non-trivial = history with >= 2 successful moves; distinct = fingerprint of (instance, history)."
     }
     fn assumptions(&self) -> Vec<&'static str> {
         vec!["the order of constraints inside a list is not part of the property and is not compared", "feasibility is judged from the values the Solution itself reports (the values are checked by C05)"]
@@ -71,6 +71,13 @@ impl Property for C14 {
         let g = gen_instance(rng, &cfg);
         let mut inst = g.instance;
         add_threshold_constraints(rng, &mut inst, &g.pool);
+        // half of the instances carry constraint hints (one-hot / SOS1) that name active constraints
+        if rng.bool() {
+            inst.constraint_hints = gen_hints(rng, &inst);
+            if inst.constraint_hints.is_some() {
+                mon.facet("instance-with-constraint-hints");
+            }
+        }
         if inst.constraints.is_empty() && inst.removed_constraints.is_empty() {
             mon.facet("no-constraints");
         }
@@ -206,6 +213,10 @@ impl Property for C14 {
                     return;
                 }
                 (Err(e), true) => {
+                    if after != before {
+                        mon.violation(format!("C14.failed-operation-changed-instance:{opname}"), format!("{e}\n{}", ctx(&after, &history)));
+                        return;
+                    }
                     mon.violation(format!("C14.valid-operation-rejected:{opname}"), format!("{e}\n{}", ctx(&after, &history)));
                     return;
                 }
@@ -264,6 +275,9 @@ impl Property for C14 {
             a.removed_constraints.clear();
             b.constraints.clear();
             b.removed_constraints.clear();
+            // whether hints that name a moved constraint are kept is not part of the property
+            a.constraint_hints = None;
+            b.constraint_hints = None;
             if a != b {
                 mon.violation(format!("C14.other-fields-changed:{opname}"), ctx(&inst, &history));
                 return;
